@@ -22,6 +22,7 @@ import (
 	"sort"
 	"strings"
 	"sync"
+	"sync/atomic"
 
 	"github.com/notaryproject/notation-go/dir"
 	"github.com/notaryproject/notation-go/verifharness/lib"
@@ -316,7 +317,19 @@ func main() {
 		}
 
 		ts := truststore.NewX509TrustStore(dir.NewSysFS(base))
-		certs, err := ts.GetCertificates(context.Background(), truststore.Type(sc.Type), sc.Name)
+		// every fifth load runs under a context that ENDS after it was looked at a few times (a verification whose deadline
+		// falls into the load): the load returns every certificate of the store, or fails as a whole - never a part
+		var ctx context.Context = context.Background()
+		ending := i%5 == 4
+		if ending {
+			ctx = &endingCtx{Context: context.Background(), left: int32(1 + rng.Intn(3)), done: make(chan struct{})}
+		}
+		certs, err := ts.GetCertificates(ctx, truststore.Type(sc.Type), sc.Name)
+		if ending && want && err != nil && sc.Judged {
+			r.Eval(lib.JS(sc) + "|ending-context")
+			r.Event("failed-as-a-whole-under-an-ending-context")
+			return
+		}
 		key := ""
 		if sc.Shape != "" {
 			key = lib.JS(sc)
@@ -380,6 +393,7 @@ func main() {
 		}
 	}, r.PanicViolation("truststore.GetCertificates"))
 	concurrentLoads(r)
+	manyEntries(r, root.Cert)
 	r.RequireAtLeast("loaded", int64(n/5))
 	r.RequireAtLeast("refused", int64(n/5))
 	r.Finish()
@@ -397,6 +411,32 @@ func validName(s string) bool {
 	return true
 }
 
+// endingCtx is a context that is alive for the first few times somebody looks at it and cancelled from then on.
+type endingCtx struct {
+	context.Context
+	left int32
+	once sync.Once
+	done chan struct{}
+}
+
+func (c *endingCtx) look() bool {
+	if atomic.AddInt32(&c.left, -1) < 0 {
+		c.once.Do(func() { close(c.done) })
+		return true
+	}
+	return false
+}
+func (c *endingCtx) Err() error {
+	if c.look() {
+		return context.Canceled
+	}
+	return nil
+}
+func (c *endingCtx) Done() <-chan struct{} {
+	c.look()
+	return c.done
+}
+
 func subjects(cs []*x509.Certificate) []string {
 	var out []string
 	for _, c := range cs {
@@ -408,6 +448,35 @@ func subjects(cs []*x509.Certificate) []string {
 // concurrentLoads: one trust store value, 12 named stores over the three types each holding its own certificate, loaded
 // by 36 goroutines at once (a verifier is shared by concurrent verifications). Each load must return exactly the
 // certificate of the store it named - never the content of a store another goroutine is loading.
+// manyEntries: a store of 1 100 certificate files (a distribution's CA directory, one file per certificate): every one of
+// them is returned; and with one garbage file among them the store fails as a whole.
+func manyEntries(r *lib.Run, cert *x509.Certificate) {
+	base := lib.TempDir("c13many")
+	defer os.RemoveAll(base)
+	for _, t := range []string{"ca", "tsa"} {
+		d := filepath.Join(base, "truststore", "x509", t, "many")
+		os.MkdirAll(d, 0o755)
+		for k := 0; k < 1100; k++ {
+			os.WriteFile(filepath.Join(d, fmt.Sprintf("cert-%04d.crt", k)), cert.Raw, 0o644)
+		}
+		ts := truststore.NewX509TrustStore(dir.NewSysFS(base))
+		certs, err := ts.GetCertificates(context.Background(), truststore.Type(t), "many")
+		r.Eval("many-entries|" + t)
+		r.Event("stores-with-more-than-a-thousand-entries")
+		if err != nil || len(certs) != 1100 {
+			r.Violation(map[string]string{"kind": "returned-set", "shape": "many-entries"}, fmt.Sprintf("a %s store of 1100 certificate files: GetCertificates returned %d certificates (err=%v)", t, len(certs), err), nil)
+		}
+		for k := 0; k < 1100; k += 100 { // garbage scattered through the directory: wherever the listing puts them, one is enough
+			os.WriteFile(filepath.Join(d, fmt.Sprintf("cert-%04d.crt", k+50)), []byte("garbage, not a certificate"), 0o644)
+		}
+		certs, err = ts.GetCertificates(context.Background(), truststore.Type(t), "many")
+		r.Eval("many-entries-with-garbage|" + t)
+		if err == nil {
+			r.Violation(map[string]string{"kind": "decision", "model": "false", "library": "true", "shape": "many-entries-with-garbage"}, fmt.Sprintf("a %s store of 1100 files, 11 of them garbage: GetCertificates returned %d certificates and no error", t, len(certs)), nil)
+		}
+	}
+}
+
 func concurrentLoads(r *lib.Run) {
 	base := lib.TempDir("c13conc")
 	r.OnExit(func() { os.RemoveAll(base) })
